@@ -256,8 +256,7 @@ Definition known_holes : list (string * Z * Z) :=
     (* 11: further records that no genesis field carries (read from the table only) *)
     ("asset", 36, 11); ("collector", 9, 11); ("esm", 16, 11); ("esm", 17, 11); ("lend", 81, 11);
     ("liquidationsV2", 7, 11);
-    ("rewards", 21, 11); ("rewards", 22, 11); ("rewards", 23, 11); ("rewards", 32, 11);
-    ("rewards", 41, 11); ("rewards", 48, 11);
+    ("rewards", 21, 11); ("rewards", 22, 11);
     (* 13: esm: the kill switches are imported through SetKillSwitchData, which validates against the
            asset module (the app must exist) and on whose error InitGenesis returns; the user deposits
            and the cool-off data come after it *)
@@ -267,7 +266,10 @@ Definition known_holes : list (string * Z * Z) :=
     ("auction", 18, 14); ("auction", 21, 14); ("auction", 22, 14);
     ("auction", 33, 14); ("auction", 34, 14); ("auction", 35, 14); ("auction", 19, 14); ("auction", 25, 14);
     (* 15: liquidation V1: the locked-vault histories are not exported *)
-    ("liquidation", 18, 15); ("liquidation", 23, 15) ].
+    ("liquidation", 18, 15); ("liquidation", 23, 15);
+    (* 16: rewards: the external rewards of stable-mint vaults, the reward epochs and both their id
+           counters are not exported (the reward coins stay in the module account) *)
+    ("rewards", 23, 16); ("rewards", 32, 16); ("rewards", 41, 16); ("rewards", 48, 16) ].
 Local Close Scope string_scope.
 
 Definition kf_C20 (n : Z) (m : string) (b : Z) : bool :=
